@@ -56,6 +56,7 @@ def make_form(rng, i):
     langs = rng.choice([[], [], ["en", "fr"]])
     dup_ok = rng.random() < 0.15
     extras_used = []
+    notes_col = rng.random() < 0.2  # an author's notes column whose header has a space: dropped with a warning, the other columns keep their order
     for ln in lists:
         n = rng.choice([1, 2, 3, 5, 8, 30]) if rng.random() < 0.3 else rng.randint(1, 6)
         extra = rng.sample(EXTRA, rng.randint(0, 3))
@@ -74,6 +75,8 @@ def make_form(rng, i):
                     c[ec] = f"{ec}.{ln}.{k}"
             if rng.random() < 0.1:
                 c["image"] = f"img.{ln}.{k}.png"
+            if notes_col and rng.random() < 0.6:
+                c["internal notes"] = f"note {k}"
             if k == n // 2 and rng.random() < 0.12 and not dup_ok:
                 c["name"] = "other"  # the list brings its own 'other' (anywhere in the list): or_other must not add a second one
             if n > 1 and k < n - 1 and rng.random() < 0.08 and "image" not in c:
@@ -84,7 +87,7 @@ def make_form(rng, i):
         for ec in extra:
             if ec not in extras_used:
                 extras_used.append(ec)
-    f.choice_headers = ["name"] + ([f"label::{L}" for L in langs] if langs else []) + ["label"] + extras_used
+    f.choice_headers = ["name"] + ([f"label::{L}" for L in langs] if langs else []) + ["label"] + extras_used + (["internal notes"] if notes_col else [])
     rng.shuffle(f.choice_headers)
     f.choice_headers = [h for h in f.choice_headers if any(h in c for lst in f.choices.values() for c in lst)]
     if dup_ok:
@@ -163,7 +166,21 @@ def make_form(rng, i):
                 else:
                     rows.append(Row("q", "text", nm, cells))
         elif x < 0.85:
-            rows.append(Row("q", "text", nm, {"label": f"q {nm}", "default": "${last-saved#seedq}"}))
+            where = rng.choice(["default", "default", "message", "label", "hint"])
+            if where == "default":
+                rows.append(Row("q", "text", nm, {"label": f"q {nm}", "default": "${last-saved#seedq}"}))
+            elif where == "message":
+                # the reference only inside a (possibly translated) message: two levels down in the bind
+                col = rng.choice(["constraint_message", "required_message"])
+                cells = {"label": f"q {nm}", "constraint": ". != 'z'", "required": "yes"}
+                if langs:
+                    cells = {f"label::{langs[0]}": f"q {nm}", "constraint": ". != 'z'", "required": "yes"}
+                    cells[f"{col}::{rng.choice(langs)}"] = "last time: ${last-saved#seedq}"
+                else:
+                    cells[col] = "last time: ${last-saved#seedq}"
+                rows.append(Row("q", rng.choice(["text", "integer"]), nm, cells))
+            else:
+                rows.append(Row("q", "text", nm, {"label": f"q {nm}", where: "was ${last-saved#seedq}"} if where != "label" else {"label": "was ${last-saved#seedq}"}))
         elif x < 0.92 and not ext_used:
             ext_used = True
             rows.append(Row("q", "select_one_external ext1", nm, {"label": f"q {nm}", "choice_filter": "grp=${seedq}"}))
@@ -231,7 +248,7 @@ def expected_items(form, ln, rm_entries):
         extra = []
         for h in seen:
             b, lg = split_header(h)
-            if h in c and b not in ("name", "label", "list_name") and b not in MEDIA:
+            if h in c and b not in ("name", "label", "list_name") and b not in MEDIA and " " not in h:  # a header with a space is dropped (with a warning): not an element name
                 extra.append((h, c[h]))
         items.append((it, extra))
     return items, req
